@@ -692,7 +692,7 @@ def install_more(models):
             return eq_at(len(cs) - len(ps))
         return any(eq_at(k) for k in range(len(cs) - len(ps) + 1))
 
-    @R(r"^<std::string::String as Deref>::deref$|^<String as Deref>::deref$|^std::string::String::as_str$|^<std::string::String as Clone>::clone$|^<std::string::String as AsRef<str>>::as_ref$|^<std::string::String as Borrow<str>>::borrow$")
+    @R(r"^<std::string::String as Deref>::deref$|^<String as Deref>::deref$|^std::string::String::as_str$|^<std::string::String as Clone>::clone$|^<std::string::String as AsRef<str>>::as_ref$|^<std::string::String as Borrow<str>>::borrow$|^<.* as Into<(std::string::)?String>>::into$|^<(std::string::)?String as From<.*>>::from$")
     def _string_id(ex, c, a):
         return deref(a[0])
 
